@@ -14,6 +14,9 @@ import Mathlib.Analysis.SpecialFunctions.Exponential
 import Mathlib.Analysis.SpecialFunctions.Trigonometric.Basic
 import Mathlib.Topology.Algebra.Order.LiminfLimsup
 import Mathlib.MeasureTheory.Integral.Bochner.Basic
+import Mathlib.MeasureTheory.Integral.IntegralEqImproper
+import Mathlib.Analysis.SpecialFunctions.ImproperIntegrals
+import Mathlib.Analysis.SpecialFunctions.Integrability.Basic
 
 namespace GSV.Lemmas.Psd
 open Matrix
@@ -220,5 +223,199 @@ theorem IsPSDKernel.integral {T : Type*} [MeasurableSpace T] (μ : Measure T) {F
     filter_upwards [hF] with t ht using ht.quad_nonneg x c
 
 end kernel
+
+/-! ### conditionally negative definite kernels and Schoenberg's `exp (−ψ)` -/
+
+/-- `ψ` is conditionally negative definite: symmetric, and `Σ c_i ψ(x_i, x_j) c_j ≤ 0` whenever `Σ c_i = 0`. -/
+def IsCNDKernel {X : Type*} (ψ : X → X → ℝ) : Prop :=
+  (∀ a b, ψ a b = ψ b a) ∧
+    ∀ (n : ℕ) (x : Fin n → X) (c : Fin n → ℝ), ∑ i, c i = 0 → ∑ i, ∑ j, c i * ψ (x i) (x j) * c j ≤ 0
+
+section cnd
+variable {X : Type*} {ψ : X → X → ℝ}
+
+/-- the kernel centred at `x0` is PSD -/
+theorem IsCNDKernel.psd_centered (h : IsCNDKernel ψ) (x0 : X) :
+    IsPSDKernel fun a b => ψ a x0 + ψ x0 b - ψ a b - ψ x0 x0 := by
+  rw [isPSDKernel_iff]
+  refine ⟨fun a b => by rw [h.1 a x0, h.1 x0 b, h.1 a b]; ring, fun n x c => ?_⟩
+  have hc := h.2 (n + 1) (Fin.cons x0 x) (Fin.cons (-(∑ i, c i)) c) (by simp [Fin.sum_univ_succ])
+  simp only [Fin.sum_univ_succ, Fin.cons_zero, Fin.cons_succ] at hc
+  set S := ∑ i, c i with hS
+  have e1 : ∑ j, -S * ψ x0 (x j) * c j = -S * ∑ j, ψ x0 (x j) * c j := by
+    rw [Finset.mul_sum]; exact Finset.sum_congr rfl fun j _ => by ring
+  have e2 : ∑ i, (c i * ψ (x i) x0 * -S + ∑ j, c i * ψ (x i) (x j) * c j)
+      = -S * ∑ i, c i * ψ (x i) x0 + ∑ i, ∑ j, c i * ψ (x i) (x j) * c j := by
+    rw [Finset.sum_add_distrib, Finset.mul_sum]
+    congr 1; exact Finset.sum_congr rfl fun i _ => by ring
+  rw [e1, e2] at hc
+  have g : ∑ i, ∑ j, c i * (ψ (x i) x0 + ψ x0 (x j) - ψ (x i) (x j) - ψ x0 x0) * c j
+      = (∑ i, c i * ψ (x i) x0) * S + S * (∑ j, ψ x0 (x j) * c j)
+        - ∑ i, ∑ j, c i * ψ (x i) (x j) * c j - ψ x0 x0 * (S * S) := by
+    rw [hS, Finset.sum_mul_sum, Finset.sum_mul_sum, Finset.sum_mul_sum, Finset.mul_sum,
+      ← Finset.sum_add_distrib, ← Finset.sum_sub_distrib, ← Finset.sum_sub_distrib]
+    refine Finset.sum_congr rfl fun i _ => ?_
+    rw [Finset.mul_sum, ← Finset.sum_add_distrib, ← Finset.sum_sub_distrib, ← Finset.sum_sub_distrib]
+    exact Finset.sum_congr rfl fun j _ => by ring
+  rw [g]
+  linarith
+
+/-- **Schoenberg**: `exp (−ψ)` is PSD for a conditionally negative definite `ψ`. -/
+theorem IsCNDKernel.exp_neg (h : IsCNDKernel ψ) (x0 : X) : IsPSDKernel fun a b => Real.exp (-ψ a b) := by
+  have h1 := (h.psd_centered x0).exp
+  have h2 := (h1.conj (fun a => Real.exp (-ψ a x0))).smul (Real.exp_pos (ψ x0 x0)).le
+  convert h2 using 3 with a b
+  rw [← Real.exp_add, ← Real.exp_add, ← Real.exp_add]
+  congr 1
+  rw [h.1 x0 b]; ring
+
+theorem IsCNDKernel.smul (h : IsCNDKernel ψ) {t : ℝ} (ht : 0 ≤ t) : IsCNDKernel fun a b => t * ψ a b := by
+  refine ⟨fun a b => by show t * ψ a b = t * ψ b a; rw [h.1 a b], fun n x c hc => ?_⟩
+  have := h.2 n x c hc
+  have e : ∑ i, ∑ j, c i * (t * ψ (x i) (x j)) * c j = t * ∑ i, ∑ j, c i * ψ (x i) (x j) * c j := by
+    rw [Finset.mul_sum]; refine Finset.sum_congr rfl fun i _ => ?_
+    rw [Finset.mul_sum]; exact Finset.sum_congr rfl fun j _ => by ring
+  rw [e]; exact mul_nonpos_of_nonneg_of_nonpos ht this
+
+/-- `w · (1 − K)` is CND for a PSD kernel `K` and `w ≥ 0` -/
+theorem IsPSDKernel.one_sub_cnd {K : X → X → ℝ} (h : IsPSDKernel K) {w : ℝ} (hw : 0 ≤ w) :
+    IsCNDKernel fun a b => (1 - K a b) * w := by
+  refine ⟨fun a b => by show (1 - K a b) * w = (1 - K b a) * w; rw [h.symm a b], fun n x c hc => ?_⟩
+  have hq := h.quad_nonneg x c
+  have e : ∑ i, ∑ j, c i * ((1 - K (x i) (x j)) * w) * c j
+      = w * ((∑ i, c i) * (∑ j, c j) - ∑ i, ∑ j, c i * K (x i) (x j) * c j) := by
+    rw [Finset.sum_mul_sum, ← Finset.sum_sub_distrib, Finset.mul_sum]
+    refine Finset.sum_congr rfl fun i _ => ?_
+    rw [← Finset.sum_sub_distrib, Finset.mul_sum]
+    exact Finset.sum_congr rfl fun j _ => by ring
+  rw [e, hc]
+  have : w * (0 * 0 - ∑ i, ∑ j, c i * K (x i) (x j) * c j) = -(w * ∑ i, ∑ j, c i * K (x i) (x j) * c j) := by ring
+  rw [this]
+  exact neg_nonpos.2 (mul_nonneg hw hq)
+
+open MeasureTheory in
+/-- integrals of CND kernels are CND -/
+theorem IsCNDKernel.integral {T : Type*} [MeasurableSpace T] (μ : Measure T) {F : T → X → X → ℝ}
+    (hF : ∀ᵐ t ∂μ, IsCNDKernel (F t)) (hint : ∀ a b, Integrable (fun t => F t a b) μ) :
+    IsCNDKernel fun a b => ∫ t, F t a b ∂μ := by
+  refine ⟨fun a b => ?_, fun n x c hc => ?_⟩
+  · refine integral_congr_ae ?_
+    filter_upwards [hF] with t ht using ht.1 a b
+  · have e : ∑ i, ∑ j, c i * (∫ t, F t (x i) (x j) ∂μ) * c j
+        = ∫ t, ∑ i, ∑ j, c i * F t (x i) (x j) * c j ∂μ := by
+      rw [integral_finsetSum _ fun i _ => integrable_finsetSum _ fun j _ =>
+        ((hint (x i) (x j)).const_mul (c i)).mul_const (c j)]
+      refine Finset.sum_congr rfl fun i _ => ?_
+      rw [integral_finsetSum _ fun j _ => ((hint (x i) (x j)).const_mul (c i)).mul_const (c j)]
+      refine Finset.sum_congr rfl fun j _ => ?_
+      rw [integral_mul_const, integral_const_mul]
+    rw [e]
+    refine integral_nonpos_of_ae ?_
+    filter_upwards [hF] with t ht using ht.2 n x c hc
+
+end cnd
+
+/-! ### Bernstein representation of `s ^ β`, `0 < β < 1`:  `s^β · I = ∫₀^∞ (1 − e^{−t s}) t^{−1−β} dt` with `I > 0` -/
+
+section bernstein
+open MeasureTheory Set
+
+/-- the integrand `(1 − e^{−t s}) t^{−1−β}` -/
+noncomputable def bernsteinG (β s t : ℝ) : ℝ := (1 - Real.exp (-(t * s))) * t ^ (-1 - β)
+
+theorem bernsteinG_nonneg {β s t : ℝ} (hs : 0 ≤ s) (ht : 0 ≤ t) : 0 ≤ bernsteinG β s t := by
+  unfold bernsteinG
+  refine mul_nonneg ?_ (Real.rpow_nonneg ht _)
+  have : Real.exp (-(t * s)) ≤ 1 := Real.exp_le_one_iff.2 (neg_nonpos.2 (mul_nonneg ht hs))
+  linarith
+
+theorem measurable_bernsteinG (β s : ℝ) : Measurable (bernsteinG β s) := by
+  unfold bernsteinG
+  exact (measurable_const.sub (Real.measurable_exp.comp (measurable_id.mul_const s).neg)).mul
+    (measurable_id.pow_const _)
+
+theorem bernsteinG_integrableOn {β s : ℝ} (hβ0 : 0 < β) (hβ1 : β < 1) (hs : 0 ≤ s) :
+    IntegrableOn (bernsteinG β s) (Ioi 0) := by
+  have hsplit : Ioi (0:ℝ) = Ioc 0 1 ∪ Ioi 1 := (Ioc_union_Ioi_eq_Ioi zero_le_one).symm
+  rw [hsplit]
+  refine IntegrableOn.union ?_ ?_
+  · -- near 0: bounded by s t^{-β}
+    have hi : IntegrableOn (fun t : ℝ => s * t ^ (-β)) (Ioc 0 1) :=
+      ((intervalIntegrable_iff_integrableOn_Ioc_of_le zero_le_one).1
+        (intervalIntegral.intervalIntegrable_rpow' (by linarith))).const_mul s
+    refine Integrable.mono' hi (measurable_bernsteinG β s).aestronglyMeasurable ?_
+    refine (ae_restrict_iff' measurableSet_Ioc).2 (Filter.Eventually.of_forall fun t ht => ?_)
+    have ht0 : 0 < t := ht.1
+    rw [Real.norm_eq_abs, abs_of_nonneg (bernsteinG_nonneg hs ht0.le)]
+    unfold bernsteinG
+    have h1 : 1 - Real.exp (-(t * s)) ≤ t * s := by
+      have := Real.add_one_le_exp (-(t * s)); linarith
+    have h2 : t ^ (-1 - β) = t⁻¹ * t ^ (-β) := by
+      rw [show (-1 - β) = -1 + -β by ring, Real.rpow_add ht0, Real.rpow_neg_one]
+    rw [h2]
+    have h3 : 0 ≤ t⁻¹ * t ^ (-β) := by positivity
+    calc (1 - Real.exp (-(t * s))) * (t⁻¹ * t ^ (-β)) ≤ (t * s) * (t⁻¹ * t ^ (-β)) :=
+          mul_le_mul_of_nonneg_right h1 h3
+      _ = s * t ^ (-β) := by field_simp
+  · -- near ∞: bounded by t^{-1-β}
+    have hi : IntegrableOn (fun t : ℝ => t ^ (-1 - β)) (Ioi 1) :=
+      integrableOn_Ioi_rpow_of_lt (by linarith) zero_lt_one
+    refine Integrable.mono' hi (measurable_bernsteinG β s).aestronglyMeasurable ?_
+    refine (ae_restrict_iff' measurableSet_Ioi).2 (Filter.Eventually.of_forall fun t ht => ?_)
+    have ht0 : 0 < t := lt_trans zero_lt_one ht
+    rw [Real.norm_eq_abs, abs_of_nonneg (bernsteinG_nonneg hs ht0.le)]
+    unfold bernsteinG
+    have h1 : 1 - Real.exp (-(t * s)) ≤ 1 := by linarith [Real.exp_pos (-(t * s))]
+    calc (1 - Real.exp (-(t * s))) * t ^ (-1 - β) ≤ 1 * t ^ (-1 - β) :=
+          mul_le_mul_of_nonneg_right h1 (Real.rpow_nonneg ht0.le _)
+      _ = t ^ (-1 - β) := one_mul _
+
+/-- the constant `I(β) = ∫₀^∞ (1 − e^{−t}) t^{−1−β} dt` -/
+noncomputable def bernsteinI (β : ℝ) : ℝ := ∫ t in Ioi (0:ℝ), bernsteinG β 1 t
+
+theorem bernsteinI_pos {β : ℝ} (hβ0 : 0 < β) (hβ1 : β < 1) : 0 < bernsteinI β := by
+  unfold bernsteinI
+  have hint := bernsteinG_integrableOn hβ0 hβ1 zero_le_one
+  rw [setIntegral_pos_iff_support_of_nonneg_ae ?_ hint]
+  · -- the support contains Ioi 0
+    have hsub : Ioi (0:ℝ) ⊆ Function.support (bernsteinG β 1) ∩ Ioi 0 := by
+      intro t ht
+      refine ⟨?_, ht⟩
+      have ht0 : (0:ℝ) < t := ht
+      have : 0 < bernsteinG β 1 t := by
+        unfold bernsteinG
+        refine mul_pos ?_ (Real.rpow_pos_of_pos ht0 _)
+        have : Real.exp (-(t * 1)) < 1 := Real.exp_lt_one_iff.2 (by linarith)
+        linarith
+      exact this.ne'
+    refine lt_of_lt_of_le ?_ (measure_mono hsub)
+    simp
+  · refine (ae_restrict_iff' measurableSet_Ioi).2 (Filter.Eventually.of_forall fun t ht => ?_)
+    exact bernsteinG_nonneg zero_le_one (le_of_lt ht)
+
+/-- scaling: `∫₀^∞ (1 − e^{−t s}) t^{−1−β} dt = s^β · I(β)` for `s ≥ 0` -/
+theorem bernstein_integral {β s : ℝ} (hβ0 : 0 < β) (hs : 0 ≤ s) :
+    ∫ t in Ioi (0:ℝ), bernsteinG β s t = s ^ β * bernsteinI β := by
+  rcases hs.eq_or_lt with rfl | hs0
+  · simp [bernsteinG, Real.zero_rpow hβ0.ne']
+  · have h := integral_comp_mul_left_Ioi (fun u => bernsteinG β 1 u) 0 hs0
+    simp only [mul_zero, smul_eq_mul] at h
+    -- bernsteinG β 1 (s t) = s^(-1-β) · bernsteinG β s t  on t > 0
+    have hcongr : ∫ t in Ioi (0:ℝ), bernsteinG β 1 (s * t) = ∫ t in Ioi (0:ℝ), s ^ (-1 - β) * bernsteinG β s t := by
+      refine setIntegral_congr_fun measurableSet_Ioi fun t ht => ?_
+      have ht0 : (0:ℝ) < t := ht
+      unfold bernsteinG
+      rw [Real.mul_rpow hs0.le ht0.le, mul_one, mul_comm s t]; ring
+    rw [hcongr, integral_const_mul] at h
+    unfold bernsteinI
+    have hs1 : s ^ (-1 - β) ≠ 0 := (Real.rpow_pos_of_pos hs0 _).ne'
+    have : ∫ t in Ioi (0:ℝ), bernsteinG β s t = (s ^ (-1 - β))⁻¹ * (s⁻¹ * ∫ t in Ioi (0:ℝ), bernsteinG β 1 t) := by
+      rw [← h]; field_simp
+    rw [this, ← mul_assoc]
+    congr 1
+    rw [← Real.rpow_neg hs0.le, ← Real.rpow_neg_one s, ← Real.rpow_add hs0]
+    congr 1; ring
+
+end bernstein
 
 end GSV.Lemmas.Psd
